@@ -189,6 +189,13 @@ def show(t, depth=0):
     return repr(t)
 
 
+def strip_after(t):
+    """peel the 'possibly mutated by an uninterpreted call' wrappers"""
+    while isinstance(t, tuple) and t and t[0] == 'call' and t[1] in ('after', 'loop_carried', 'loop_result') and len(t[2]) >= 2:
+        t = t[2][0] if t[1] == 'after' else t[2][1]
+    return t
+
+
 def subterms(t):
     yield t
     if isinstance(t, tuple):
@@ -310,6 +317,8 @@ class State:
         self.trace = []
         self.notes = []
         self.closures = {}
+        self.mutseq = 0
+        self.last_opaque = None
         self.mutcalls = {}
         self.depth = 0
         self.loops = []      # stack of loop source terms we are (symbolically) inside
@@ -407,12 +416,40 @@ class State:
                 if not self.match(p, a, env, irrefutable=True):
                     raise EvalError('param pattern mismatch in ' + path)
             try:
-                return self.expr(hir['body'], env)
-            except ReturnEx as r:
-                return r.v
+                try:
+                    return self.expr(hir['body'], env)
+                except ReturnEx as r:
+                    return r.v
+            finally:
+                self.write_back(hir, env, node)
         finally:
             self.depth -= 1
             self.frames.pop()
+
+    def write_back(self, hir, env, node):
+        """after an inlined call: a parameter that received `&mut local` and was assigned/pushed in the callee
+        is copied back to the caller's local"""
+        if node is None or len(self.frames) < 2:
+            return
+        caller_env = self.frames[-2].env
+        anodes = []
+        if node.get('k') == 'MethodCall':
+            anodes = [node.get('recv')] + list(node.get('args', []))
+        elif node.get('k') == 'Call':
+            anodes = list(node.get('args', []))
+        for pp, an in zip(hir['params'], anodes):
+            if pp.get('k') != 'Bind' or an is None:
+                continue
+            n = an
+            explicit = False
+            while n.get('k') == 'AddrOf':
+                explicit = explicit or n.get('mut')
+                n = n['e']
+            if not explicit and not (an is node.get('recv') and (node.get('recv_ty') or '').startswith('&mut')):
+                continue
+            if n.get('k') == 'Path' and n.get('res') == 'local' and not (n.get('ty') or '').startswith('&'):
+                if pp['id'] in env and n['id'] in caller_env and env[pp['id']] != caller_env[n['id']]:
+                    caller_env[n['id']] = env[pp['id']]
 
     def call_closure(self, cv, args, node):
         key = cv[1]
@@ -489,6 +526,7 @@ class State:
             self.mutcalls[r] = n
             if n > 1:
                 r = ('call', norm_path(target), tuple(args) + (('lit', n, '#nth'),))
+        self.last_opaque = r
         return r
 
     def local_conversion(self, npath, args, node, recv_ty):
@@ -1448,6 +1486,43 @@ class State:
         self.place_assign(e['a'], r, env)
         return UNIT
 
+    def mut_locals(self, e):
+        """locals handed to this call by mutable reference: [(local id, name)]"""
+        out = []
+        cands = []
+        if e.get('k') == 'MethodCall':
+            if (e.get('recv_ty') or '').startswith('&mut'):
+                cands.append((e['recv'], True))
+            cands += [(a, False) for a in e.get('args', [])]
+        else:
+            cands += [(a, False) for a in e.get('args', [])]
+        for n, is_recv in cands:
+            explicit = False
+            while n.get('k') == 'AddrOf':
+                explicit = explicit or n.get('mut')
+                n = n['e']
+            if n.get('k') == 'Path' and n.get('res') == 'local':
+                ty = n.get('ty') or ''
+                if (explicit or is_recv) and not ty.startswith('&'):
+                    out.append((n['id'], n.get('name')))
+        return out
+
+    def havoc_after_opaque(self, e, env, result):
+        """an uninterpreted callee may have written through `&mut local` arguments"""
+        if not (isinstance(result, tuple) and result and result[0] == 'call'):
+            return
+        for vid, name in self.mut_locals(e):
+            old = env.get(vid)
+            if old is None:
+                continue
+            if old[0] in ('list',) and result[1] in ('std::vec::Vec::push',):
+                continue
+            last = result[1].split('::')[-1]
+            if old[0] in ('list', 'seq') and (last.startswith('sort') or last in ('reverse', 'shrink_to_fit', 'reserve')):
+                continue     # reorders / reserves only: the abstract collection is unchanged
+            self.mutseq += 1
+            env[vid] = ('call', 'after', (old, ('lit', result[1].split('::')[-1], ''), ('lit', self.mutseq, '#')))
+
     def e_Call(self, e, env):
         f = e['f']
         if e.get('ctor'):
@@ -1458,7 +1533,10 @@ class State:
             recv_ty = None
             if e.get('trait') and e['args']:
                 recv_ty = e['args'][0].get('ty')
-            return self.do_call(e['callee'], args, e, trait=e.get('trait'), recv_ty=recv_ty)
+            r = self.do_call(e['callee'], args, e, trait=e.get('trait'), recv_ty=recv_ty)
+            if self.last_opaque is not None and self.last_opaque is r:
+                self.havoc_after_opaque(e, env, r)
+            return r
         fv = self.refine(self.expr(f, env))
         args = [self.expr(x, env) for x in e['args']]
         if fv[0] == 'closure':
@@ -1486,7 +1564,10 @@ class State:
             return UNIT
         recv = self.expr(recv_node, env)
         args = [recv] + [self.expr(x, env) for x in e['args']]
-        return self.do_call(callee, args, e, trait=e.get('trait'), recv_ty=e.get('recv_ty'), method=e.get('method'))
+        r = self.do_call(callee, args, e, trait=e.get('trait'), recv_ty=e.get('recv_ty'), method=e.get('method'))
+        if self.last_opaque is not None and self.last_opaque is r:
+            self.havoc_after_opaque(e, env, r)
+        return r
 
     def e_ConstBlock(self, e, env):
         return ('unknown', 'constblock')
